@@ -96,6 +96,10 @@ def meta_views(ctx, out):
             nextf[0] += 1
             isref = rng.random() < 0.5
             name = f'f{rng.randrange(0, 6)}' if rng.random() < 0.3 else f'g{fid}'
+            if name in [t[2] for t in own[c]]:
+                # two features of one name in ONE class share one descriptor slot of the Python class (removing both
+                # raises AttributeError in delattr): not a class graph this property talks about
+                name = f'g{fid}'
             f = E.EReference(name, classes[rng.randrange(ncls)]) if isref else E.EAttribute(name, E.EString)
             classes[c].eStructuralFeatures.append(f)
             own[c].append((fid, isref, name))
